@@ -266,6 +266,70 @@ Definition case_conv (l : list Z) : list Z :=
   | _ => [-1]
   end.
 
+(** ** The complete writer and reader (kind 9)
+    [9; ncalls; (row kind, ctor spec)*; nops; ops]; the rows carry their call index. *)
+From SF Require Import Model.Complete.
+Definition K_PAIR : Z := 9.
+
+Definition p_pcall : parser (rowk * ctor) :=
+  k <- p_next ;; c <- p_ctor ;;
+  if k =? 0 then p_ret (RowOk, c) else if k =? 1 then p_ret (RowMissingField, c) else if k =? 2 then p_ret (RowWrongType, c) else p_fail.
+
+Fixpoint number_calls (i : Z) (l : list (rowk * ctor)) : option (list (shape * rowk * Z)) :=
+  match l with
+  | [] => Some []
+  | (k, c) :: r =>
+      match build c, number_calls (i + 1) r with
+      | Ok s, Some l' => Some ((s, k, i) :: l')
+      | _, _ => None
+      end
+  end.
+
+Definition p_cop : parser (nat -> ccall) :=
+  k <- p_next ;;
+  if k =? 0 then j <- p_next ;; p_ret (fun cap => CIter (if j <? 0 then cap else Nat.min cap (Z.to_nat j)))
+  else if k =? 2 then i <- p_next ;; p_ret (fun _ => CSeek i)
+  else if k =? 3 then p_ret (fun _ => CCount)
+  else p_fail.
+
+Definition written_count (rs : list (res unit)) : Z :=
+  zlen (filter (fun r => match r with Ok _ | Err EDbase => true | _ => false end) rs).
+
+Definition r_pair_item (r : res (shape * Z)) : list Z := r_res (fun x => r_shape (fst x) ++ [snd x]) r.
+
+Definition r_cout (o : cout) : list Z :=
+  match o with
+  | COItems items ended => zlen items :: flat_map r_pair_item items ++ [r_bool ended]
+  | COSeek r => r_unit_res r
+  | COCount r => r_res (fun n => [n]) r
+  end.
+
+Definition case_pair (l : list Z) : list Z :=
+  match p_list p_pcall l with
+  | Some (pcs, rest) =>
+      match number_calls 0 pcs, p_list p_cop rest with
+      | Some calls, Some (ops, []) =>
+          let '(rs, st, w) := cw_calls calls cw_new world0 in
+          let w' := w_drop (cw_shape st) w in
+          let shp := d_buf (w_shp w') in let shx := d_buf (w_shx w') in
+          let rows := cw_rows st in
+          let counts := [written_count rs; (zlen shx - 100) / 8; zlen rows] in
+          zlen rs :: flat_map r_unit_res rs ++ counts ++
+          match fst (run read_index_file (src_of shx)) with
+          | Err e => 1 :: err_codes e
+          | Panic => [2]
+          | Ok index =>
+              let cap := (length shp / 12 + length shx / 8 + 2)%nat in
+              let p := st0 <-- r_with_shx index ;; out <-- c_calls None rows (mkcr st0 0) (map (fun f => f cap) ops) ;;
+                       Ret (flat_map r_cout out) in
+              r_res (fun x => x) (fst (run p (src_of shp)))
+          end
+      | None, _ => [-3]
+      | _, _ => [-1]
+      end
+  | None => [-1]
+  end.
+
 Definition run_case2 (l : list Z) : list Z :=
   match l with
   | k :: r =>
@@ -273,6 +337,7 @@ Definition run_case2 (l : list Z) : list Z :=
       else if k =? K_READ then case_read r
       else if k =? K_REF then case_ref r
       else if k =? K_CONV then case_conv r
+      else if k =? K_PAIR then case_pair r
       else run_case l
   | [] => [-1]
   end.
